@@ -153,6 +153,41 @@ def cer_outcome(known: bool, na: int, nk: int, ca: int, cc: int, cv: int, relay:
     return hx.check(inputs, obs, exp, "CER outcome: 2001+ready / 3010+closing / 5010+not ready, CEA carries the node's identity and application ids")
 
 
+SPELL = [lambda s: s.lower(), lambda s: ".".join(w.capitalize() for w in s.split(".")), lambda s: s.upper()]
+
+
+def cer_case(cfg: int, sp: int, outbound: bool) -> bool:
+    """
+    pre: 0 <= cfg <= 2 and 0 <= sp <= 2
+    post: _
+    """
+    hx.begin()
+    cfg, sp = hx.concretize_range(cfg, 0, 3), hx.concretize_range(sp, 0, 3)
+    inputs = (cfg, sp, outbound)
+    saved = B.PEER_HOSTS[0]
+    try:
+        # DiameterIdentity is a case-insensitive FQDN: the peer is configured in one spelling and names itself in another
+        B.PEER_HOSTS[0] = SPELL[cfg](saved)
+        b = B.Bench(n_peers=1)
+        n, p = b.node, b.peers[0]
+        name = SPELL[sp](saved)
+        if outbound:
+            c = b.dial(p, "ok")
+            drain(c)
+            b.inject(c, B.cea(name, hbh=11, e2e=12))
+            out = []
+        else:
+            c, s = b.accept()
+            b.inject(c, B.cer(name, hbh=11, e2e=12))
+            out = [x[5] for x in B.summarize(drain(c))]
+        obs = (out, c.state, p.connection is c, b.apps[0].is_ready.is_set())
+    except Exception as e:
+        return hx.fail(inputs, "raised " + type(e).__name__ + str(e)[:80])
+    finally:
+        B.PEER_HOSTS[0] = saved
+    return hx.check(inputs, obs, ([] if outbound else [2001], B.PEER_READY, True, True), "a configured peer is known whatever the letter case of its name in the URI and in Origin-Host")
+
+
 # ----------------------------------------------------------------------------- 3. outbound: CER first, ready only on a 2001 CEA
 def cea_outcome(result: int) -> bool:
     """
@@ -213,6 +248,59 @@ def ce_timeout(outbound: bool, elapsed: int, node_to: int, peer_to: int) -> bool
     return hx.check(inputs, obs, exp, "closed iff the expected CER/CEA did not arrive within the effective timeout (per-peer value first)")
 
 
+def ce_timeout_traffic(outbound: bool, slow: int, t_junk: int, elapsed: int, junk: int, node_to: int) -> bool:
+    """
+    pre: 0 <= slow <= 60 and 0 <= t_junk <= elapsed <= 120 and 0 <= junk <= 2 and 1 <= node_to <= 60
+    post: _
+    """
+    hx.begin()
+    from harness import hist as H
+    junk = hx.concretize_range(junk, 0, 3)
+    inputs = (outbound, slow, t_junk, elapsed, junk, node_to)
+    try:
+        h = H.Hist(init="fresh", persistent=False)
+        n, p = h.n, h.p
+        n.cea_timeout = node_to
+        n.cer_timeout = node_to
+        if outbound:
+            # the TCP handshake itself takes `slow` seconds; the wait for the CEA starts when the CER can go out
+            WORLD.connect_plan.append("pending")
+            n._connect_to_peer(p)
+            c = h.newest()
+            s = n.peer_sockets.get(c.ident)
+            s.connect_plan = "pending"
+            h.settle()
+            WORLD.now += slow
+            s.connect_plan = "inprogress"
+            h.settle()
+        else:
+            h.ev_accept()
+            c = h.newest()
+            s = n.peer_sockets.get(c.ident)
+        st0 = c.state
+        s.out = b""
+        WORLD.now += t_junk
+        if c.ident in n.connections:
+            n._check_timers(c)
+        if junk and c.ident in n.connections:
+            # traffic the capabilities-exchange gate ignores: a whole watchdog request / the first bytes of some message
+            data = B.dwr(PEER, 31, 32).as_bytes()
+            h._push(c, data if junk == 1 else data[:10])
+        WORLD.now += elapsed - t_junk
+        if c.ident in n.connections:
+            n._check_timers(c)
+        h.settle()
+        sent = [m.header.command_code for m in WORLD.frames(s.out)]
+        obs = (st0, c.state, c.ident in n.connections, sent)
+    except Exception as e:
+        return hx.fail(inputs, "raised %s" % type(e).__name__)
+    if elapsed > node_to:
+        exp = (B.PEER_CONNECTED, B.PEER_CLOSED, False, [])
+    else:
+        exp = (B.PEER_CONNECTED, B.PEER_CONNECTED, True, [])
+    return hx.check(inputs, obs, exp, "pre-CE connection: closed iff the expected CER/CEA did not arrive within the timeout counted from the moment the connection was established - whatever else arrived meanwhile")
+
+
 # ----------------------------------------------------------------------------- 5. histories on one inbound connection
 EVENTS = ["cer_known", "cer_unknown", "cer_nocommon", "dwr", "dpr", "app_request", "app_answer", "dwa", "tick"]
 
@@ -269,7 +357,9 @@ def specs(tier, seed, carve):
     q = tier == "quick"
     out = [dict(id="gate_step", fn="gate_step", params={}, timeout=300, bound="inbound/outbound x pre-CE state {fresh, after 3010 / rejected CEA, after 5010} x 9 message kinds"),
            dict(id="cea_outcome", fn="cea_outcome", params={}, timeout=120, bound="all 2^32 CEA result codes"),
-           dict(id="ce_timeout", fn="ce_timeout", params={}, timeout=200, bound="both directions, elapsed 0..200 s, node timeout 1..60, per-peer timeout 0..60 (0 = unset)")]
+           dict(id="ce_timeout", fn="ce_timeout", params={}, timeout=200, bound="both directions, elapsed 0..200 s, node timeout 1..60, per-peer timeout 0..60 (0 = unset)"),
+           dict(id="cer_case", fn="cer_case", params={}, timeout=300, bound="peer configured in lower / Capitalised / UPPER case x Origin-Host of its CER (inbound) or CEA (outbound) in each of the three spellings"),
+           dict(id="ce_timeout_traffic", fn="ce_timeout_traffic", params={}, timeout=600, bound="both directions through the real I/O loop; TCP handshake lasting 0..60 s; ignored traffic (a whole DWR / 10 bytes of one / none) arriving at any second before the check; elapsed 0..120 s; timeout 1..60")]
     import random
     rnd = random.Random(seed)
     cfgs = [(na, nk) for na in range(8) for nk in range(8) if na & nk == 0 and (na | nk) and bin(na | nk).count("1") <= 2]
